@@ -45,9 +45,86 @@ impl Chooser for OwnedWalk {
     }
 }
 
+/// State of a preemption-bounded explicit schedule: the path of option indices taken so far. Used both to
+/// replay a schedule given in the case bytes and, shared with `exhaust.rs`, to enumerate all schedules with
+/// at most `bound` pre-emptions of one program.
+pub struct PathState {
+    pub bound: usize,
+    /// (index taken, number of options) per decision
+    pub path: Vec<(u8, u8)>,
+    pub depth: usize,
+    pub used: usize,
+    /// offset in the case bytes at which the schedule source starts (for building replay files)
+    pub offset: usize,
+    pub nthreads: usize,
+}
+
+pub struct Bounded {
+    pub st: std::rc::Rc<std::cell::RefCell<PathState>>,
+}
+
+impl Chooser for Bounded {
+    fn choose(&mut self, d: &Decision) -> usize {
+        let mut st = self.st.borrow_mut();
+        let cur = d.current.filter(|c| d.enabled.contains(c));
+        let mut options: Vec<usize> = vec![];
+        match cur {
+            Some(c) => {
+                options.push(c);
+                if st.used < st.bound {
+                    options.extend(d.enabled.iter().copied().filter(|t| *t != c));
+                }
+            }
+            None => options.extend(d.enabled.iter().copied()),
+        }
+        let n = options.len().min(255) as u8;
+        let depth = st.depth;
+        let idx = if depth < st.path.len() {
+            let i = st.path[depth].0.min(n - 1);
+            st.path[depth] = (i, n);
+            i
+        } else {
+            st.path.push((0, n));
+            0
+        };
+        st.depth += 1;
+        let chosen = options[idx as usize];
+        if let Some(c) = cur {
+            if chosen != c {
+                st.used += 1;
+            }
+        }
+        chosen
+    }
+}
+
+thread_local! {
+    /// Set by `exhaust.rs`: every chooser made on this thread is the shared enumerating one.
+    pub static ENUM: std::cell::RefCell<Option<std::rc::Rc<std::cell::RefCell<PathState>>>> = const { std::cell::RefCell::new(None) };
+}
+
+pub fn enumerating() -> bool {
+    ENUM.with(|e| e.borrow().is_some())
+}
+
 /// The first byte selects the schedule source; the rest of the case bytes parameterise it.
 pub fn make_chooser(src: &mut Src, nthreads: usize, horizon: usize, rep: &mut Report) -> Box<dyn Chooser> {
-    let which = if nthreads < 2 { 0 } else { src.below(4) };
+    if let Some(st) = ENUM.with(|e| e.borrow().clone()) {
+        {
+            let mut s = st.borrow_mut();
+            s.offset = src.consumed();
+            s.nthreads = nthreads;
+        }
+        rep.class("schedule:bounded-enumeration");
+        return Box::new(Bounded { st });
+    }
+    let which = if nthreads < 2 { 0 } else { src.below(5) };
+    if which == 4 {
+        rep.class("schedule:explicit-bounded");
+        let bound = src.below(4);
+        let path: Vec<(u8, u8)> = (0..300).map(|_| (src.byte(), 0)).collect();
+        return Box::new(Bounded { st: std::rc::Rc::new(std::cell::RefCell::new(PathState { bound, path, depth: 0, used: 0, offset: 0, nthreads })) });
+    }
     match which {
         0 | 1 => {
             rep.class("schedule:walk");
